@@ -1261,20 +1261,29 @@ def merge_sites(atoms: Atoms, indices, merging_strategies={}, keep_all=False):
         atoms.numbers[idx] = new_properties["numbers"]
         # -- labels --#
         if atoms.has("labels"):
-            labels = atoms.get_array("labels").astype("U25")
+            # wide enough for the merged label (at least the customary 25)
+            ltype = "U%d" % max(25, len(new_properties["labels"]))
+            labels = atoms.get_array("labels")
+            if labels.dtype.kind == "U" and labels.dtype.itemsize // 4 > int(ltype[1:]):
+                ltype = "U%d" % (labels.dtype.itemsize // 4)
+            labels = labels.astype(ltype)
             labels[idx] = new_properties["labels"]
             # first delete the old array
             # (this is needed to avoid a bug in ASE)
             atoms.set_array("labels", None)
-            atoms.set_array("labels", labels, dtype="U25")
+            atoms.set_array("labels", labels, dtype=ltype)
             # also update the magresview_labels array if it exists
             if atoms.has("magresview_labels"):
-                labels = atoms.get_array("magresview_labels").astype("U25")
+                labels = atoms.get_array("magresview_labels")
+                mtype = ltype
+                if labels.dtype.kind == "U" and labels.dtype.itemsize // 4 > int(mtype[1:]):
+                    mtype = "U%d" % (labels.dtype.itemsize // 4)
+                labels = labels.astype(mtype)
                 labels[idx] = new_properties["labels"]
                 # first delete the old array
                 # (this is needed to avoid a bug in ASE)
                 atoms.set_array("magresview_labels", None)
-                atoms.set_array("magresview_labels", labels, dtype="U25")
+                atoms.set_array("magresview_labels", labels, dtype=mtype)
 
         # -- custom arrays -- #
         for key in new_properties:
